@@ -70,6 +70,7 @@ Fresh(c, vars0) ==
    vars |-> vars0, ctr |-> [n \in CtrNames(c) |-> 0],
    src |-> [d \in 1..Len(c.drivers) |-> [i \in 1..c.drivers[d].len |-> 0]],
    drvLog |-> <<>>, exec |-> <<>>, trun |-> <<>>, faulted |-> FALSE, fault |-> "none",
+   pendVar |-> <<>>, pendIo |-> <<>>,
    inj |-> [prog |-> "", at |-> 0], drvFail |-> [d |-> 0, op |-> ""]]
 
 \* ------------------------------- scheduling (C06) -------------------------------
@@ -167,13 +168,28 @@ RunTasks(x, ord, i) ==
   IF i > Len(ord) \/ Pending(x) THEN x
   ELSE RunTasks(RunProgs([x EXCEPT !.trun = Append(x.trun, cfg.tasks[ord[i]].name)], 1, TaskSel(ord[i])), ord, i + 1)
 
+\* ------------------------- debugger writes (cycle boundaries only) -------------------------
+\* a debugger write never takes effect in the middle of a cycle: variable writes are applied at the
+\* start of the next executed cycle (before the drivers are read), writes to the process image after
+\* the drivers delivered their inputs and before the latch; a refused cycle leaves them pending
+RECURSIVE ApplyVarWrites(_, _)
+ApplyVarWrites(x, i) == IF i > Len(x.pendVar) THEN [x EXCEPT !.pendVar = <<>>]
+                        ELSE ApplyVarWrites([x EXCEPT !.vars[x.pendVar[i].var] = x.pendVar[i].val], i + 1)
+RECURSIVE ApplyIoWrites(_, _)
+ApplyIoWrites(x, i) == IF i > Len(x.pendIo) THEN [x EXCEPT !.pendIo = <<>>]
+                       ELSE ApplyIoWrites([x EXCEPT !.img[x.pendIo[i].addr.area] = Encode(x.img[x.pendIo[i].addr.area], x.pendIo[i].addr, x.pendIo[i].val)], i + 1)
+\* a second write to the same variable before the boundary replaces the first
+QueueVarWrite(q, var, val) == IF \E i \in DOMAIN q : q[i].var = var
+                              THEN [i \in DOMAIN q |-> IF q[i].var = var THEN [var |-> var, val |-> val] ELSE q[i]]
+                              ELSE Append(q, [var |-> var, val |-> val])
+
 \* ---------------------------------- one cycle ----------------------------------
 Settle(x) == IF Pending(x) THEN RaiseFault(x, x.fault, "policy:" \o cfg.policy) ELSE x
 CycleOf(x0, evReset) ==
   IF x0.faulted THEN [x0 EXCEPT !.exec = <<>>, !.trun = <<>>, !.drvLog = <<>>]    \* refused: nothing changes
   ELSE LET x  == [x0 EXCEPT !.exec = <<>>, !.trun = <<>>, !.drvLog = <<>>]
-           a  == ReadDrivers(x, 1)                                   IN IF Pending(a) THEN Settle(a) ELSE
-       LET b  == Latch(a, 1)
+           a  == ReadDrivers(ApplyVarWrites(x, 1), 1)                IN IF Pending(a) THEN Settle(a) ELSE
+       LET b  == Latch(ApplyIoWrites(a, 1), 1)
            ord == Order(b)
            c  == Collect(b, evReset)
            d  == RunTasks(c, ord, 1)                                 IN IF Pending(d) THEN Settle(d) ELSE
@@ -192,6 +208,8 @@ FailDriverOf(x, d, op)  == [x EXCEPT !.drvFail = [d |-> d, op |-> op]]
 WatchdogOf(x)           == RaiseFault([x EXCEPT !.drvLog = <<>>], "WatchdogTimeout", "wd:" \o cfg.wd)
 SimFaultOf(x)           == RaiseFault([x EXCEPT !.drvLog = <<>>], "SimulationFault", "policy:" \o cfg.policy)
 DirectWriteOf(x, a, v)  == [x EXCEPT !.img[a.area] = Encode(x.img[a.area], a, v)]
+DebugVarWriteOf(x, var, val) == [x EXCEPT !.pendVar = QueueVarWrite(x.pendVar, var, val)]
+DebugIoWriteOf(x, a, v)      == [x EXCEPT !.pendIo = Append(x.pendIo, [addr |-> a, val |-> v])]
 \* a write through a VAR_ACCESS path reaches the program variable it names
 SetAccessOf(x, n, v)    == [x EXCEPT !.ctr[n] = v]
 
@@ -205,7 +223,8 @@ Retained(n) == \E k \in DOMAIN cfg.counters : cfg.counters[k].name = n /\ cfg.co
 RestartOf(x, mode) ==
   LET f == Fresh(cfg, cfg.vars0) IN
   [f EXCEPT !.ctr = [n \in DOMAIN x.ctr |-> IF mode = "warm" /\ Retained(n) THEN x.ctr[n] ELSE 0],
-            !.img = x.img, !.src = x.src, !.drvFail = x.drvFail]
+            !.img = x.img, !.src = x.src, !.drvFail = x.drvFail, !.pendVar = x.pendVar, !.pendIo = x.pendIo]
 \* save, new process, load: the same variables survive as in a warm restart
-PowerCycleOf(x) == [RestartOf(x, "warm") EXCEPT !.img = Fresh(cfg, cfg.vars0).img]
+\* (a new process has a new debugger: nothing pending)
+PowerCycleOf(x) == [RestartOf(x, "warm") EXCEPT !.img = Fresh(cfg, cfg.vars0).img, !.pendVar = <<>>, !.pendIo = <<>>]
 =================================================================================
